@@ -137,6 +137,29 @@ def split_16(r, probs, name):
 
 def join_16(r, probs, name, expr):
     """encoded[0]*256 + encoded[1] (or << 8, |): returns True if recognised."""
+    # int.from_bytes(x[0:2], 'big'): the same value for two bytes - but a slice, unlike an index, does not fault on a short field
+    if isinstance(expr, ast.Call) and isinstance(expr.func, ast.Attribute) and expr.func.attr == "from_bytes" and isinstance(expr.func.value, ast.Name) \
+            and expr.func.value.id == "int" and expr.args:
+        order = None
+        for a in list(expr.args[1:]) + [k.value for k in expr.keywords]:
+            ok, v = r.fold(a)
+            if ok and isinstance(v, str):
+                order = v
+        src = expr.args[0]
+        width = None
+        if isinstance(src, ast.Subscript) and isinstance(src.slice, ast.Slice):
+            lo = r.fold(src.slice.lower) if src.slice.lower is not None else (True, 0)
+            hi = r.fold(src.slice.upper) if src.slice.upper is not None else (False, None)
+            if lo[0] and hi[0]:
+                width = (lo[1], hi[1])
+        if width is None:
+            raise AnalysisError("%s: int.from_bytes(%s) not understood" % (name, U(src)))
+        if order != "big":
+            probs.append(Problem("L1", name, "byte-order", "bytes are joined in %r order, must be big-endian" % (order,), expr))
+        if width != (0, 2):
+            probs.append(Problem("L1", name, "radix", "the 16-bit value is taken from bytes [%s:%s], must be [0:2]" % width, expr))
+        r.lenient_join = expr
+        return True
     parts = []
     # locals that merely name a byte of the argument: hi, lo = enc[0], enc[1] / hi = enc[0]
     names = {}
@@ -211,6 +234,8 @@ def check_primitives(prog):
     if len(rets) != 1:
         raise AnalysisError("decode16Int: return not recognisable")
     join_16(r, probs, "decode16Int", rets[0].value)
+    # does a field cut short fault?  indexing bytes 0 and 1 does (IndexError), slicing does not
+    facts["u16_lenient"] = getattr(r, "lenient_join", None)
     # ---- encodeString ----
     r = Roles(prog, mod, mod.funcs["encodeString"])
     split_16(r, probs, "encodeString")
